@@ -20,6 +20,23 @@ pub use purge_trivia::purge_trivia;
 pub use side_effects::HasSideEffects;
 pub use strip_parentheses::strip_parentheses;
 
+/// The value of a numeric literal, optionally negated (`1`, `.5`, `-2`): what a lint may treat as a number.
+/// Anything else - in particular a variable, whatever it is called (`inf`, `nan`) - has no known value.
+pub fn numeric_literal_value(expression: &ast::Expression) -> Option<f32> {
+    match expression {
+        ast::Expression::Number(_) => purge_trivia(expression).to_string().parse::<f32>().ok(),
+
+        ast::Expression::UnaryOperator {
+            unop: ast::UnOp::Minus(_),
+            expression: operand,
+        } if matches!(**operand, ast::Expression::Number(_)) => {
+            purge_trivia(expression).to_string().parse::<f32>().ok()
+        }
+
+        _ => None,
+    }
+}
+
 pub fn is_type_function(name: &str, roblox: bool) -> bool {
     name == "type" || (name == "typeof" && roblox)
 }
